@@ -417,6 +417,8 @@ pub enum PFault {
     /// overwrite the k-th length prefix with a boundary value
     Length(u16, u8),
     Random(Vec<u8>),
+    /// flip a bit inside the body of the k-th length-delimited record (nesting levels 0..2): (k, position inside the body, bit)
+    InBody(u16, u16, u8),
 }
 
 #[derive(Clone, Debug, Serialize, Deserialize, Hash)]
@@ -500,6 +502,22 @@ fn apply_pfault(bytes: &[u8], f: &PFault) -> (Vec<u8>, String) {
             }
             (v, "flip (empty)".into())
         }
+        PFault::InBody(k, pos, bit) => {
+            let marks = length_marks(bytes);
+            if marks.is_empty() {
+                return (bytes.to_vec(), "no length prefix".into());
+            }
+            let (off, w, _) = marks[vcore::mutate::scale(*k, marks.len())];
+            // the prefix is `w` bytes wide: decode it
+            let n = bytes[off..off + w].iter().enumerate().fold(0u64, |a, (i, b)| a | (((*b & 0x7f) as u64) << (7 * i))) as usize;
+            if n == 0 {
+                return (bytes.to_vec(), "empty body".into());
+            }
+            let at = off + w + vcore::mutate::scale(*pos, n);
+            let mut v = bytes.to_vec();
+            v[at] ^= 1 << (bit % 8);
+            (v, format!("flip bit {} of byte {} (inside the {}-byte record body at {})", bit % 8, at, n, off + w))
+        }
         PFault::Length(k, which) => {
             let marks = length_marks(bytes);
             if marks.is_empty() {
@@ -530,6 +548,7 @@ fn arb_pfault() -> BoxedStrategy<PFault> {
         3 => any::<u16>().prop_map(PFault::Truncate),
         3 => (any::<u16>(), 0u8..8).prop_map(|(i, b)| PFault::Flip(i, b)),
         3 => (any::<u16>(), 0u8..8).prop_map(|(k, w)| PFault::Length(k, w)),
+        3 => (any::<u16>(), any::<u16>(), 0u8..8).prop_map(|(k, p, b)| PFault::InBody(k, p, b)),
         1 => prop::collection::vec(any::<u8>(), 0..64).prop_map(PFault::Random),
         1 => prop::collection::vec(prop_oneof![0u8..24, any::<u8>()], 0..48).prop_map(PFault::Random),
     ]
@@ -582,18 +601,21 @@ fn depth_probe(ctx: &PCtx, rec: &RefCell<Recorder>) {
             if !(depth <= 12 || (90..=112).contains(&depth) || depth % 25 == 0) {
                 continue;
             }
-            // Tree{ left: Tree{ left: ... Tree{value: 1} } }: field 3 (left) nested `depth` times
+            // Tree{ left: Tree{ left: ... Tree{value: 1} } }: nested `depth` times through field 3
+            // (left, optional), through field 2 (kids, repeated) and through both alternating
+            for (hop_name, hops) in [("optional field", &[0x1au8][..]), ("repeated field", &[0x12u8][..]), ("repeated and optional fields alternating", &[0x12u8, 0x1a][..])] {
             let mut bytes = vec![0x08, 0x01];
-            for _ in 0..depth {
-                let mut o = vec![0x1a];
+            for level in 0..depth {
+                let mut o = vec![hops[level % hops.len()]];
                 put_varint(&mut o, bytes.len() as u64);
                 o.extend_from_slice(&bytes);
                 bytes = o;
             }
             {
                 let mut rr = rec.borrow_mut();
-                rr.case(fp(&("depth", &d.key, depth)), true, || json!({"doc": d.key, "nesting depth": depth}));
+                rr.case(fp(&("depth", &d.key, depth, hop_name)), true, || json!({"doc": d.key, "nesting depth": depth, "through": hop_name}));
                 rr.class("nesting chain");
+                rr.class(&format!("nesting chain through {}", hop_name));
                 rr.class_if(depth >= 102, "nesting chain beyond the limit");
             }
             let r = catch(|| (e.ops.decode_only)(&bytes));
@@ -612,8 +634,10 @@ fn depth_probe(ctx: &PCtx, rec: &RefCell<Recorder>) {
                 }
             };
             if let Some(f) = fail {
-                ctx.report(rec, "proto-depth", &json!({"doc": d.key, "depth": depth}), &f);
+                let f = Fail::new(&f.key, format!("{} (chain through {})", f.msg, hop_name));
+                ctx.report(rec, "proto-depth", &json!({"doc": d.key, "depth": depth, "through": hop_name}), &f);
                 return;
+            }
             }
             // map levels (field 4, map<string, Tree>): an entry is a nested message of its own,
             // so one map level is two wire levels; `maps` map levels innermost below
@@ -800,6 +824,7 @@ pub fn c10(ctx: &PCtx) -> i32 {
                     PFault::None => "valid",
                     PFault::Truncate(_) => "truncation",
                     PFault::Flip(..) => "bit flip",
+                    PFault::InBody(..) => "bit flip inside a record body",
                     PFault::Length(..) => "length prefix corrupted",
                     PFault::Random(_) => "random bytes",
                 });
@@ -858,7 +883,7 @@ fn leak_case(ctx: &PCtx, di: usize, c: &PFaultCase) -> PResult {
 pub fn c19(ctx: &PCtx) -> i32 {
     let rec = RefCell::new(Recorder::new("C19", ctx.tier, ctx.seed));
     rec.borrow_mut().level = "fault_enumeration";
-    rec.borrow_mut().rule = "protobuf part: every generated message type, truncations / bit flips / length-prefix corruptions of reference encodings on which Message::decode fails; repeated three times under the counting allocator; no repeating growth of live bytes, input buffer handle unique again".into();
+    rec.borrow_mut().rule = "protobuf part: every generated message type, truncations / bit flips / length-prefix corruptions of reference encodings on which Message::decode fails, plus bit flips at nine positions inside every length-delimited record body (to nesting level 2) of a few values per type; repeated three times under the counting allocator; no repeating growth of live bytes, input buffer handle unique again".into();
     let n = ctx.tier.pick(200, 4000);
     let mut seen = std::collections::BTreeSet::new();
     for (di, r) in ctx.targets() {
@@ -877,6 +902,35 @@ pub fn c19(ctx: &PCtx) -> i32 {
         if let Some((case, f)) = res {
             seen.insert(f.key.clone());
             ctx.report(&rec, "proto-leak", &case, &f);
+        }
+    }
+    // every length-delimited record body (strings, packed fields, map entries, nested messages,
+    // oneof members, to nesting level 2) of a few values per type gets bit flips at several
+    // positions: failures *inside* a nested record, after it has already allocated
+    if rec.borrow().violations.is_empty() {
+        for (di, r) in ctx.targets() {
+            let strat = arb_pcase(ctx, di, &r, false, false, false);
+            for base in vcore::corpus::sample(&strat, ctx.seed, &format!("C19p-bodies-{}-{}", ctx.corpus.docs[di].key, r.path.join(".")), ctx.tier.pick(3, 40) as usize) {
+                let doc = &ctx.corpus.docs[di].doc;
+                let (bytes, _) = encode_case(doc, &base, &base.value, true);
+                let n_marks = length_marks(&bytes).len();
+                for k in 0..n_marks.min(400) {
+                    for (pos, bit) in [(0u16, 0u8), (0, 2), (9000, 1), (22000, 7), (33000, 0), (44000, 3), (55000, 6), (65535, 2), (65535, 7)] {
+                        let kk = (((k << 16) / n_marks.max(1)) + 1).min(65535) as u16;
+                        let c = PFaultCase { base: base.clone(), fault: PFault::InBody(kk, pos, bit) };
+                        {
+                            let mut rr = rec.borrow_mut();
+                            rr.case(fp(&c), true, || json!({"doc": c.base.doc, "message": c.base.msg.path.join("."), "fault": format!("{:?}", c.fault)}));
+                            rr.class("protobuf: bit flip inside a nested record body");
+                        }
+                        if let Err(f) = leak_case(ctx, di, &c) {
+                            if seen.insert(f.key.clone()) && !ctx.findings.is_open("C19", &f.key) {
+                                ctx.report(&rec, "proto-leak", &c, &f);
+                            }
+                        }
+                    }
+                }
+            }
         }
     }
     // memory that stays behind once per *distinct* rejected input (a cache keyed by something the
